@@ -69,7 +69,9 @@ impl<'v> MutableSlots<'v> {
     }
 
     pub fn get_slot(&self, slot: ModuleSlotId) -> Option<Value<'v>> {
-        self.0.borrow()[slot.0 as usize]
+        // A name can be registered before its slot is allocated (an evaluation that failed
+        // while resolving names never reaches `ensure_slots`): such a slot holds no value.
+        self.0.borrow().get(slot.0 as usize).copied().flatten()
     }
 
     pub fn set_slot(&self, slot: ModuleSlotId, value: Value<'v>) {
